@@ -180,6 +180,41 @@ struct __redu_list {
   T *data;
   size_t size;
   __redu_list() : data(nullptr), size(0) {}
+  __redu_list(const __redu_list &other) : data(nullptr), size(other.size) {
+    if (size != 0) {
+      data = new T[size];
+      for (size_t i = 0; i < size; ++i) {
+        data[i] = other.data[i];
+      }
+    }
+  }
+  __redu_list(__redu_list &&other) : data(other.data), size(other.size) {
+    other.data = nullptr;
+    other.size = 0;
+  }
+  __redu_list &operator=(const __redu_list &other) {
+    if (this != &other) {
+      T *next = other.size != 0 ? new T[other.size] : nullptr;
+      for (size_t i = 0; i < other.size; ++i) {
+        next[i] = other.data[i];
+      }
+      delete[] data;
+      data = next;
+      size = other.size;
+    }
+    return *this;
+  }
+  __redu_list &operator=(__redu_list &&other) {
+    if (this != &other) {
+      delete[] data;
+      data = other.data;
+      size = other.size;
+      other.data = nullptr;
+      other.size = 0;
+    }
+    return *this;
+  }
+  ~__redu_list() { delete[] data; }
 };
 
 template <typename T>
@@ -256,17 +291,7 @@ void __redu_list_remove(__redu_list<T> &list, const T &value) {
 
 template <typename T>
 void __redu_list_assign(__redu_list<T> &dest, const __redu_list<T> &source) {
-  if (&dest == &source) {
-    return;
-  }
-  if (dest.data != nullptr) {
-    delete[] dest.data;
-  }
-  dest.size = source.size;
-  dest.data = dest.size ? new T[dest.size] : nullptr;
-  for (size_t i = 0; i < dest.size; ++i) {
-    dest.data[i] = source.data[i];
-  }
+  dest = source;
 }
 
 template <typename T, typename Func>
